@@ -97,6 +97,8 @@ typedef struct {
   int      qclass;
   int      family;  /* for address lookups */
   int      ai_flags;
+  int      ni_flags;   /* getnameinfo: 0 = ARES_NI_LOOKUPHOST | ARES_NI_NAMEREQD */
+  int      odd_args;   /* 0 none; 1.. = an argument combination the entry point refuses or treats specially */
   uint8_t  addr[16]; /* reverse lookups */
   int      started;  /* API call was made */
   int      api_returned;
@@ -503,7 +505,7 @@ static void app_cb_nameinfo(void *arg, int status, int timeouts, char *node, cha
 {
   app_tok_t *t = (app_tok_t *)arg;
   (void)service;
-  if (t->cb_count == 0 && node != NULL) {
+  if (t->cb_count == 0 && node != NULL && !(t->ni_flags & ARES_NI_NUMERICHOST)) {
     t->had_result = 1;
     snprintf(t->canon, sizeof(t->canon), "%s", node);
     tok_add_serial(t, serial_from_text(node), 0);
@@ -611,6 +613,23 @@ static void app_start_token(int ti)
         memset(&h, 0, sizeof(h));
         h.ai_family = t->family;
         h.ai_flags  = t->ai_flags;
+        if (t->odd_args) {
+          static const char *const svcs[] = { "http", "99999", "no-such-service", "", "53" };
+          static const int         afl[]  = { ARES_AI_NUMERICHOST, ARES_AI_PASSIVE, ARES_AI_V4MAPPED | ARES_AI_ALL, ARES_AI_ADDRCONFIG,
+                                              ARES_AI_NUMERICSERV, ARES_AI_ENVHOSTS, ARES_AI_NOSORT | ARES_AI_CANONNAME };
+          int                      v      = t->odd_args - 1;
+          h.ai_flags |= afl[v % 7];
+          if ((v / 7) % 3 == 1) {
+            h.ai_family = AF_UNIX;
+          }
+          if ((v / 21) % 2 == 1) {
+            h.ai_socktype = SOCK_DGRAM;
+            h.ai_protocol = 17;
+          }
+          /* (a NULL name is not among the documented uses: the manual asks for a C string) */
+          ares_getaddrinfo(ch, t->name, svcs[(v / 3) % 5], &h, app_cb_addrinfo, t);
+          break;
+        }
         if (t->port > 0) {
           char svc[16];
           snprintf(svc, sizeof(svc), "%d", t->port);
@@ -622,9 +641,17 @@ static void app_start_token(int ti)
         break;
       }
     case RK_GETHOSTBYNAME:
-      ares_gethostbyname(ch, t->name, t->family, app_cb_host, t);
+      ares_gethostbyname(ch, t->name, t->odd_args ? ((t->odd_args & 1) ? AF_UNIX : 99) : t->family, app_cb_host, t);
       break;
     case RK_GETHOSTBYADDR:
+      if (t->odd_args) {
+        /* family / length pairs that do not fit */
+        static const int fam[] = { AF_INET, AF_INET6, AF_UNIX, AF_INET, AF_INET6 };
+        static const int len[] = { 16, 4, 4, 3, 0 };
+        int              v     = (t->odd_args - 1) % 5;
+        ares_gethostbyaddr(ch, t->addr, len[v], fam[v], app_cb_host, t);
+        break;
+      }
       ares_gethostbyaddr(ch, t->addr, t->family == AF_INET ? 4 : 16, t->family, app_cb_host, t);
       break;
     case RK_GETNAMEINFO:
@@ -632,7 +659,8 @@ static void app_start_token(int ti)
         struct sockaddr_storage ss;
         ares_socklen_t          l;
         sim_addr_to_sockaddr(t->family, t->addr, 80, &ss, &l);
-        ares_getnameinfo(ch, (const struct sockaddr *)&ss, l, ARES_NI_LOOKUPHOST | ARES_NI_NAMEREQD, app_cb_nameinfo, t);
+        ares_getnameinfo(ch, (const struct sockaddr *)&ss, l, t->ni_flags ? t->ni_flags : (ARES_NI_LOOKUPHOST | ARES_NI_NAMEREQD),
+                         app_cb_nameinfo, t);
         break;
       }
     default:
